@@ -495,7 +495,7 @@ func c01ProductFamilies(thorough bool) []c01Product {
 		}
 		mixed := strings.ToUpper(el[:1]) + el[1:]
 		raws = append(raws, c01Product{"rawend-" + el, [][]string{
-			{"<" + el + ">", "<" + up + ">", "<" + el + " a=\"b\">"},
+			{"<" + el + ">", "<" + up + ">", "<" + el + " a=\"b\">", "<" + el + "/>", "<" + el + " a=\"b\"/>"},
 			{"", "x", "<", "</", "<!--", "<!--<" + el + ">", "</" + el, "<" + el + ">", "\u023a", "\xf8", "\u0130\u023e"},
 			{"</" + el, "</" + up, "</" + mixed, "< /" + el, "</ " + el, "<\\/" + el},
 			after,
